@@ -1131,9 +1131,10 @@ func (s *sharedEntryAttributes) ImportConfig(ctx context.Context, t importer.Imp
 			var exists bool
 			var actualEntry Entry = s
 			var keyChild Entry
-			for _, keySchema := range s.schema.GetContainer().GetKeys() {
-
-				keyElemName := keySchema.Name
+			// the key levels of the tree follow the alphabetical order of the key names (see utils.ToStrings)
+			keyNames := s.GetSchemaKeys()
+			sort.Strings(keyNames)
+			for _, keyElemName := range keyNames {
 
 				keyTransf := t.GetElement(keyElemName)
 				if keyTransf == nil {
@@ -1571,8 +1572,17 @@ func (s *sharedEntryAttributes) getKeyName() (string, error) {
 	// only Contaieners have keys, so check for that
 	switch sch := ancestorWithSchema.GetSchema().GetSchema().(type) {
 	case *sdcpb.SchemaElem_Container:
-		// return the name of the levelUp-1 key
-		return sch.Container.GetKeys()[levelUp-1].Name, nil
+		// return the name of the levelUp-1 key, the key levels of the tree follow
+		// the alphabetical order of the key names (see utils.ToStrings)
+		keyNames := make([]string, 0, len(sch.Container.GetKeys()))
+		for _, k := range sch.Container.GetKeys() {
+			keyNames = append(keyNames, k.Name)
+		}
+		sort.Strings(keyNames)
+		if levelUp < 1 || levelUp > len(keyNames) {
+			return "", fmt.Errorf("error %s is not a key level of %s", strings.Join(s.Path(), " "), sch.Container.GetName())
+		}
+		return keyNames[levelUp-1], nil
 	}
 
 	// we probably called the function on a LeafList or LeafEntry which is not a valid call to be made.
